@@ -157,7 +157,9 @@ Fixpoint limited_lengths (remaining : N) (lens : list N) (broken : bool) (acc : 
 
 Inductive verdict := VLocal (status : N) | VRelayed (body_len : N).
 
-Definition c15_case (m path : bytes) (q : option bytes) (authorized : bool) (declared : option N)
+(* [sel]: what the handler decides before the body: 0 = authorized, 1 = forbidden (403),
+   2 = traversal (404), any other value = the local /provision endpoint answering 200 *)
+Definition c15_case (m path : bytes) (q : option bytes) (sel : N) (declared : option N)
            (lens : list N) (broken : bool) : N * bool * verdict :=
   let u := {| u_path := path; u_query := q |} in
   let limit := limit_of m u in
@@ -165,10 +167,14 @@ Definition c15_case (m path : bytes) (q : option bytes) (authorized : bool) (dec
    match limit_gate limit declared with
    | Refuse413 => VLocal status_payload_too_large
    | Admit body_limit =>
-       if authorized then
+       match sel with
+       | 0 =>
          match limited_lengths body_limit lens broken 0 with
          | None => VLocal (body_error_status m u)
          | Some n => VRelayed n
          end
-       else VLocal (early_status EForbidden)
+       | 1 => VLocal (early_status EForbidden)
+       | 2 => VLocal (early_status ETraversal)
+       | _ => VLocal 200
+       end
    end).
